@@ -37,12 +37,24 @@ PRED = {
 
 
 def mk_pred(spec):
+    shape = spec.get('shape')          # how the predicate declares the columns it names: plainly, as keyword-only parameters with a default, or through functools.partial
     if spec['fn'] == 'eq2':
         a, b = spec['args']
+        if shape == 'kwonly':
+            return eval('lambda %s, *, %s="__dflt__": %s == %s' % (a, b, a, b)), (lambda row: row[a] == row[b])
+        if shape == 'partial':
+            import functools
+            return functools.partial(eval('lambda %s, bound__=0, %s="__dflt__": bound__ == 1 and %s == %s' % (a, b, a, b)), bound__=1), (lambda row: row[a] == row[b])
         return eval('lambda %s, %s: %s == %s' % (a, b, a, b)), (lambda row: row[a] == row[b])
     a = spec['args'][0]
     p = PRED[spec['fn']]
-    f = eval('lambda %s: p(%s)' % (a, a), {'p': p})
+    if shape == 'kwonly':
+        f = eval('lambda *, %s="__dflt__": p(%s)' % (a, a), {'p': p})
+    elif shape == 'partial':
+        import functools
+        f = functools.partial(eval('lambda bound__=0, %s="__dflt__": p(%s) if bound__ == 1 else None' % (a, a), {'p': p}), bound__=1)
+    else:
+        f = eval('lambda %s: p(%s)' % (a, a), {'p': p})
     return f, (lambda row: p(row[a]))
 
 
@@ -224,6 +236,8 @@ def gen_case(rng):
                 cond = {'fn': 'gt1', 'args': [names[0]]}
         else:
             cond = {'fn': fn, 'args': [rng.choice(names)]}
+        if rng.random() < 0.25 and 'self' not in cond['args']:
+            cond['shape'] = rng.choice(['kwonly', 'partial'])
     else:
         kw = {}
         for c in rng.sample(names, rng.randint(1, len(names))):
